@@ -99,10 +99,28 @@ def u_rows_render(ctx):
             return [(o, s)]
         eng.methods["new:UrwidImageCanvas"] = new_canvas
         eng.genv["UrwidImageCanvas"] = ClassV("UrwidImageCanvas")
-        eng.methods[("BlockImage", "_renderer")] = lambda e, s, recv, a, k: [(Opaque("render"), s)]
+        def m_renderer(e, s, recv, a, k):
+            e.raise_(ExcVal("Boom"), e.fork(s))          # the image may fail to render: the widget then shows its error placeholder
+            return [(Opaque("render"), s)]
+        eng.methods[("BlockImage", "_renderer")] = m_renderer
+        eng.exc_parents.setdefault("Boom", "Exception")
+
+        def placeholder_render(e, s, recv, a, k):
+            # any widget: given a box size (cols, rows) its canvas has that many rows; given a flow size (cols,) as many as IT needs
+            sz = a[0]
+            s = e.fork(s)
+            if len(sz) == 2:
+                rows_ = sz[1]
+            else:
+                rows_ = e.sym_int("placeholder_own_rows")
+                s.pc.append(rows_ >= 1)
+            return [(s.new("UrwidImageCanvas", {"render": Rec("formatted", {"size": (sz[0], rows_)}), "size": (sz[0], rows_), "image_size": (sz[0], rows_), "placeholder": True}), s)]
+        eng.methods[("placeholderwidget", "render")] = placeholder_render
+        PLACEHOLDER = st.new("placeholderwidget", {})
         eng.methods[("BlockImage", "_format_render")] = lambda e, s, recv, a, k: [(Rec("formatted", {"size": (a[2], a[4])}), s)]
         eng.attrs[("BlockImage", "_render_image")] = lambda e, s, v: [(Opaque("method"), s)]
-        eng.genv["type"] = Fn(lambda e, s, a, k: [(st.new("wcls", {"_ti_error_placeholder": None}), s)])
+        WCLS = st.new("wcls", {"_ti_error_placeholder": PLACEHOLDER})
+        eng.genv["type"] = Fn(lambda e, s, a, k: [(WCLS, s)])
 
         def call(which, s, width):
             s = s.fork()
@@ -131,8 +149,9 @@ def u_rows_render(ctx):
                         continue
                     csize = sb.H(v2)["size"]
                     eng.oblige(f"after[{pname}]/announced-rows=rows-of-the-rendered-canvas", sb, And(Eq(v1, csize[1]), Eq(csize[0], cols)), kind="post")
-                    eng.oblige(f"after[{pname}]/canvas-size=formatted-render-size=(cols,image-height)", sb,
-                               And(Eq(csize, sb.H(v2)["render"].f["size"]), Eq(csize[1], sb.H(v2)["image_size"][1])), kind="post")
+                    if not sb.H(v2).get("placeholder"):
+                        eng.oblige(f"after[{pname}]/canvas-size=formatted-render-size=(cols,image-height)", sb,
+                                   And(Eq(csize, sb.H(v2)["render"].f["size"]), Eq(csize[1], sb.H(v2)["image_size"][1])), kind="post")
         obs += eng.obligations
     return obs
 
